@@ -266,6 +266,7 @@ package core
 //@ func StatementProcessor
 //@   property C01 C19 C14
 //@   option prelude=typing
+//@   modifies H.engine_pipeline.State. MapD. MapV. MapN alloc H.engine_core. H.engine_logic. SH.Str SH.Any Box.
 //@   option load=gripql,gdbi,engine/pipeline,util/protoutil,engine/logic,jsonpath
 //@   requires nonnil: gs != nil && ps != nil
 //@   axiom wireWrapStmt: forall s:*gripql.GraphStatement :: s != nil && isAPtr(s.Statement) ==> ref(s.Statement) != 0
@@ -531,3 +532,67 @@ package core
 //@   requires items: forall j :: 0 <= j && j < len(in) ==> in[j] != nil
 //@   loop 1 invariant open: !closed(out) && 0 <= rd(in) && rd(in) <= len(in)
 
+
+// Compile (C01/C14): without optimizers and extensions the compiled pipeline's result type
+// is the fold of the typing table over the statements (for the statement kinds the table
+// covers), exactly as for the MongoDB compiler; a statement the table rejects makes Compile
+// return an error.
+//@ func (DefaultCompiler).Compile
+//@   property C01 C14
+//@   option prelude=typing
+//@   option load=gripql,gdbi,engine/pipeline,engine/inspect
+//@   requires plain: len(comp.optimizers) == 0 && opts == nil
+//@   requires elems: forall j :: 0 <= j && j < len(stmts) ==> stmts[j] != nil
+//@   axiom wireWrapStmt: forall s:*gripql.GraphStatement :: s != nil && isAPtr(s.Statement) ==> ref(s.Statement) != 0
+//@   axiom rowV: forall s:*gripql.GraphStatement, t :: s != nil && dyn(s.Statement, "*gripql.GraphStatement_V") ==> tnext(s.Statement, t) == ite(t == 0, 1, -1) && tcovered(s.Statement)
+//@   axiom rowE: forall s:*gripql.GraphStatement, t :: s != nil && dyn(s.Statement, "*gripql.GraphStatement_E") ==> tnext(s.Statement, t) == ite(t == 0, 2, -1) && tcovered(s.Statement)
+//@   axiom rowIn: forall s:*gripql.GraphStatement, t :: s != nil && dyn(s.Statement, "*gripql.GraphStatement_In") ==> tnext(s.Statement, t) == ite((t == 1 || t == 2), 1, -1) && tcovered(s.Statement)
+//@   axiom rowInNull: forall s:*gripql.GraphStatement, t :: s != nil && dyn(s.Statement, "*gripql.GraphStatement_InNull") ==> tnext(s.Statement, t) == ite((t == 1 || t == 2), 1, -1) && tcovered(s.Statement)
+//@   axiom rowOut: forall s:*gripql.GraphStatement, t :: s != nil && dyn(s.Statement, "*gripql.GraphStatement_Out") ==> tnext(s.Statement, t) == ite((t == 1 || t == 2), 1, -1) && tcovered(s.Statement)
+//@   axiom rowOutNull: forall s:*gripql.GraphStatement, t :: s != nil && dyn(s.Statement, "*gripql.GraphStatement_OutNull") ==> tnext(s.Statement, t) == ite((t == 1 || t == 2), 1, -1) && tcovered(s.Statement)
+//@   axiom rowBoth: forall s:*gripql.GraphStatement, t :: s != nil && dyn(s.Statement, "*gripql.GraphStatement_Both") ==> tnext(s.Statement, t) == ite((t == 1 || t == 2), 1, -1) && tcovered(s.Statement)
+//@   axiom rowInE: forall s:*gripql.GraphStatement, t :: s != nil && dyn(s.Statement, "*gripql.GraphStatement_InE") ==> tnext(s.Statement, t) == ite(t == 1, 2, -1) && tcovered(s.Statement)
+//@   axiom rowInENull: forall s:*gripql.GraphStatement, t :: s != nil && dyn(s.Statement, "*gripql.GraphStatement_InENull") ==> tnext(s.Statement, t) == ite(t == 1, 2, -1) && tcovered(s.Statement)
+//@   axiom rowOutE: forall s:*gripql.GraphStatement, t :: s != nil && dyn(s.Statement, "*gripql.GraphStatement_OutE") ==> tnext(s.Statement, t) == ite(t == 1, 2, -1) && tcovered(s.Statement)
+//@   axiom rowOutENull: forall s:*gripql.GraphStatement, t :: s != nil && dyn(s.Statement, "*gripql.GraphStatement_OutENull") ==> tnext(s.Statement, t) == ite(t == 1, 2, -1) && tcovered(s.Statement)
+//@   axiom rowBothE: forall s:*gripql.GraphStatement, t :: s != nil && dyn(s.Statement, "*gripql.GraphStatement_BothE") ==> tnext(s.Statement, t) == ite(t == 1, 2, -1) && tcovered(s.Statement)
+//@   axiom rowHas: forall s:*gripql.GraphStatement, t :: s != nil && dyn(s.Statement, "*gripql.GraphStatement_Has") ==> tnext(s.Statement, t) == ite((t == 1 || t == 2), t, -1) && tcovered(s.Statement)
+//@   axiom rowHasLabel: forall s:*gripql.GraphStatement, t :: s != nil && dyn(s.Statement, "*gripql.GraphStatement_HasLabel") ==> tnext(s.Statement, t) == ite((t == 1 || t == 2), t, -1) && tcovered(s.Statement)
+//@   axiom rowHasKey: forall s:*gripql.GraphStatement, t :: s != nil && dyn(s.Statement, "*gripql.GraphStatement_HasKey") ==> tnext(s.Statement, t) == ite((t == 1 || t == 2), t, -1) && tcovered(s.Statement)
+//@   axiom rowHasId: forall s:*gripql.GraphStatement, t :: s != nil && dyn(s.Statement, "*gripql.GraphStatement_HasId") ==> tnext(s.Statement, t) == ite((t == 1 || t == 2), t, -1) && tcovered(s.Statement)
+//@   axiom rowDistinct: forall s:*gripql.GraphStatement, t :: s != nil && dyn(s.Statement, "*gripql.GraphStatement_Distinct") ==> tnext(s.Statement, t) == ite((t == 1 || t == 2), t, -1) && tcovered(s.Statement)
+//@   axiom rowFields: forall s:*gripql.GraphStatement, t :: s != nil && dyn(s.Statement, "*gripql.GraphStatement_Fields") ==> tnext(s.Statement, t) == ite((t == 1 || t == 2), t, -1) && tcovered(s.Statement)
+//@   axiom rowLimit: forall s:*gripql.GraphStatement, t :: s != nil && dyn(s.Statement, "*gripql.GraphStatement_Limit") ==> tnext(s.Statement, t) == t && tcovered(s.Statement)
+//@   axiom rowSkip: forall s:*gripql.GraphStatement, t :: s != nil && dyn(s.Statement, "*gripql.GraphStatement_Skip") ==> tnext(s.Statement, t) == t && tcovered(s.Statement)
+//@   axiom rowRange: forall s:*gripql.GraphStatement, t :: s != nil && dyn(s.Statement, "*gripql.GraphStatement_Range") ==> tnext(s.Statement, t) == t && tcovered(s.Statement)
+//@   axiom rowCount: forall s:*gripql.GraphStatement, t :: s != nil && dyn(s.Statement, "*gripql.GraphStatement_Count") ==> tnext(s.Statement, t) == 3 && tcovered(s.Statement)
+//@   axiom rowRender: forall s:*gripql.GraphStatement, t :: s != nil && dyn(s.Statement, "*gripql.GraphStatement_Render") ==> tnext(s.Statement, t) == ite((t == 1 || t == 2), 6, -1) && tcovered(s.Statement)
+//@   axiom rowPath: forall s:*gripql.GraphStatement, t :: s != nil && dyn(s.Statement, "*gripql.GraphStatement_Path") ==> tnext(s.Statement, t) == ite((t == 1 || t == 2), 7, -1) && tcovered(s.Statement)
+//@   axiom rowAggregate: forall s:*gripql.GraphStatement, t :: s != nil && dyn(s.Statement, "*gripql.GraphStatement_Aggregate") ==> tnext(s.Statement, t) == ite((t == 1 || t == 2), 4, -1) && tcovered(s.Statement)
+//@   axiom rowsOnly: forall s:*gripql.GraphStatement :: s != nil && tcovered(s.Statement) ==> (dyn(s.Statement, "*gripql.GraphStatement_V") || dyn(s.Statement, "*gripql.GraphStatement_E") || dyn(s.Statement, "*gripql.GraphStatement_In") || dyn(s.Statement, "*gripql.GraphStatement_InNull") || dyn(s.Statement, "*gripql.GraphStatement_Out") || dyn(s.Statement, "*gripql.GraphStatement_OutNull") || dyn(s.Statement, "*gripql.GraphStatement_Both") || dyn(s.Statement, "*gripql.GraphStatement_InE") || dyn(s.Statement, "*gripql.GraphStatement_InENull") || dyn(s.Statement, "*gripql.GraphStatement_OutE") || dyn(s.Statement, "*gripql.GraphStatement_OutENull") || dyn(s.Statement, "*gripql.GraphStatement_BothE") || dyn(s.Statement, "*gripql.GraphStatement_Has") || dyn(s.Statement, "*gripql.GraphStatement_HasLabel") || dyn(s.Statement, "*gripql.GraphStatement_HasKey") || dyn(s.Statement, "*gripql.GraphStatement_HasId") || dyn(s.Statement, "*gripql.GraphStatement_Distinct") || dyn(s.Statement, "*gripql.GraphStatement_Fields") || dyn(s.Statement, "*gripql.GraphStatement_Limit") || dyn(s.Statement, "*gripql.GraphStatement_Skip") || dyn(s.Statement, "*gripql.GraphStatement_Range") || dyn(s.Statement, "*gripql.GraphStatement_Count") || dyn(s.Statement, "*gripql.GraphStatement_Render") || dyn(s.Statement, "*gripql.GraphStatement_Path") || dyn(s.Statement, "*gripql.GraphStatement_Aggregate"))
+//@   axiom seq0: tseq(sref(stmts), soff(stmts), 0) == 0 && tcov(sref(stmts), soff(stmts), 0)
+//@   axiom seqS: forall n :: 0 <= n && n < len(stmts) ==> tseq(sref(stmts), soff(stmts), n + 1) == tnext(stmts[n].Statement, tseq(sref(stmts), soff(stmts), n)) &&
+//@       (tcov(sref(stmts), soff(stmts), n + 1) <==> (tcov(sref(stmts), soff(stmts), n) && tcovered(stmts[n].Statement)))
+//@   let s0 = stmts
+//@   loop 1 modifies __nothing__
+//@   loop 1 invariant unchanged: same(stmts, s0)
+//@   loop 2 invariant bound: rangeindex < len(stmts) && ps != nil
+//@   loop 2 invariant ltype: tcov(sref(stmts), soff(stmts), rangeindex + 1) ==> ps.LastType == tseq(sref(stmts), soff(stmts), rangeindex + 1) && ps.LastType != -1
+//@   ensures typing: result.1 == nil && len(stmts) > 0 && tcov(sref(stmts), soff(stmts), len(stmts)) ==>
+//@       dyn(result.0, "*DefaultPipeline") && ptr(result.0, "*DefaultPipeline").dataType == tseq(sref(stmts), soff(stmts), len(stmts))
+
+// Validate only reads its arguments.
+//@ func Validate
+//@   property C01
+//@   option load=gripql,gdbi
+//@   pure
+//@   requires elems: forall j :: 0 <= j && j < len(stmts) ==> stmts[j] != nil
+
+// Custom statements supplied by a driver (ASSUMED): they may set the pipeline state and
+// allocate, nothing else.
+//@ iface github.com/bmeg/grip/gdbi.CustomProcGen.GetType
+//@   params self
+//@   pure
+//@ iface github.com/bmeg/grip/gdbi.CustomProcGen.GetProcessor
+//@   params self db ps
+//@   modifies H.engine_pipeline.State. alloc
